@@ -32,10 +32,16 @@ type vDbg struct {
 	haveAfter  bool
 	afterStepD [][]byte
 	haveStep   bool
+	badSnap    bool // a callback received a snapshot that does not describe a running thread
 }
 
 func (d *vDbg) see(ev int, s *State) {
 	d.log = append(d.log, ev)
+	if len(s.Scripts) < 2 || s.ScriptIdx < 0 || s.ScriptIdx >= len(s.Scripts) {
+		d.badSnap = true
+	} else if s.OpcodeIdx >= 0 && s.OpcodeIdx < len(s.Scripts[s.ScriptIdx]) {
+		_ = s.Opcode() // what a recording debugger does with a snapshot
+	}
 	if ev == evAfterOpcode {
 		d.afterOp, d.haveAfter = nil, true
 		for _, it := range s.DataStack {
@@ -126,7 +132,7 @@ func vcloneThread(th *thread, dbg Debugger) *thread {
 
 // vlogOK: the callback sequence of one Step: opcode bracket, adjacent push/pop pairs inside it,
 // script-change pair only after the opcode bracket.
-func vstepLogOK(log []int, stepErr bool) bool {
+func vstepLogOK(log []int, stepErr bool, p2sh bool) bool {
 	i := 0
 	if i >= len(log) || log[i] != evBeforeOpcode {
 		return len(log) == 0 // validPC failure: no callback at all
@@ -165,8 +171,8 @@ func vstepLogOK(log []int, stepErr bool) bool {
 		}
 		i += 2
 	}
-	// P2SH bookkeeping may pop/push after the script change
-	for i < len(log) && (log[i] == evBeforePush || log[i] == evAfterPush || log[i] == evBeforePop || log[i] == evAfterPop) {
+	// only the P2SH stack switch may pop/push after the script change
+	for p2sh && i < len(log) && (log[i] == evBeforePush || log[i] == evAfterPush || log[i] == evBeforePop || log[i] == evAfterPop) {
 		i++
 	}
 	return i == len(log)
@@ -192,7 +198,8 @@ func VH_C19_Step() {
 		}
 	}
 	vassert(okc && th.numOps == td.numOps && th.scriptIdx == td.scriptIdx && th.scriptOff == td.scriptOff, "C19: same control state with and without debugger")
-	vassert(vstepLogOK(dbg.log, err2 != nil), "C19: callbacks fire in the documented order")
+	vassert(vstepLogOK(dbg.log, err2 != nil, th.bip16), "C19: callbacks fire in the documented order")
+	vassert(!dbg.badSnap, "C19: every snapshot describes the running thread")
 	if err2 == nil && dbg.haveAfter && len(dbg.log) > 0 && dbg.log[len(dbg.log)-1] == evAfterOpcode {
 		vassert(vstacksEq(dbg.afterOp, td.dstack.stk), "C19: AfterExecuteOpcode snapshot equals the state after the instruction")
 	}
@@ -225,7 +232,7 @@ func VH_C19_Execute() {
 		} else {
 			ok = ok && last == evAfterError
 		}
-		depth, inStep := 0, false
+		depth, inStep, changed := 0, false, false
 		nExec := 0
 		for _, e := range log {
 			switch e {
@@ -238,11 +245,18 @@ func VH_C19_Execute() {
 				depth = 2
 			case evBeforeStep:
 				ok = ok && depth == 1 && !inStep
-				inStep = true
+				inStep, changed = true, false
+			case evBeforePush, evAfterPush, evBeforePop, evAfterPop:
+				// stack traffic of a step precedes its script change (no P2SH switch here); the final
+				// verdict is popped after AfterExecute
+				ok = ok && ((inStep && !changed) || depth == 2)
+			case evAfterScriptChange:
+				ok = ok && inStep
+				changed = true
 			case evAfterStep:
 				ok = ok && inStep
 				inStep = false
-			case evBeforeOpcode, evAfterOpcode, evBeforeScriptChange, evAfterScriptChange:
+			case evBeforeOpcode, evAfterOpcode, evBeforeScriptChange:
 				ok = ok && inStep
 			case evAfterSuccess, evAfterError:
 				ok = ok && depth >= 1
@@ -253,6 +267,7 @@ func VH_C19_Execute() {
 		ok = err2 != nil // rejected before execution started: no callbacks
 	}
 	vassert(ok, "C19: lifecycle callbacks in documented order")
+	vassert(!dbg.badSnap, "C19: every snapshot describes the running thread")
 	if err2 == nil {
 		vreach("c19-exec-ok")
 	} else {
@@ -285,6 +300,7 @@ func VH_C19_P2SH() {
 	dbg := &vDbg{scribble: true}
 	err2 := NewEngine().Execute(WithScripts(&ls2, &us2), WithFlags(flags), WithDebugger(dbg))
 	vassert(verrCode(err1) == verrCode(err2), "C19: P2SH verdict unchanged by a scribbling debugger")
+	vassert(!dbg.badSnap, "C19: every snapshot describes the running thread")
 	if err1 == nil {
 		vreach("c19-p2sh-accepted")
 	}
